@@ -112,6 +112,14 @@ void GridWavelet_setSurplusRefinement(TSG *s, double tol, TypeRefinement c, int 
 void GridGlobal_updateGrid(TSG *s, int depth, TypeDepth t, gvec aw, gvec l){ family_call(s, K_GridGlobal, l, true); }
 void GridSequence_updateGrid(TSG *s, int depth, TypeDepth t, gvec aw, gvec l){ family_call(s, K_GridSequence, l, true); }
 void GridFourier_updateGrid(TSG *s, int depth, TypeDepth t, gvec aw, gvec l){ family_call(s, K_GridFourier, l, true); }
+/* candidate points of the dynamic construction: the family receives the stored limits; the returned points are a ghost vector */
+static gvec fam_candidates(TSG *s, int kind, gvec l){ gvec x = {0, 0}; family_call(s, kind, l, true); if (tsg_exc == TSG_NO_EXC) { x.id = nondet_int(); x.size = nondet_size_t(); } return x; }
+#define GridGlobal_getCandidateConstructionPoints(s, t, w, l) fam_candidates(s, K_GridGlobal, l)
+#define GridSequence_getCandidateConstructionPoints(s, t, w, l) fam_candidates(s, K_GridSequence, l)
+#define GridFourier_getCandidateConstructionPoints(s, t, w, l) fam_candidates(s, K_GridFourier, l)
+#define GridWavelet_getCandidateConstructionPoints(s, tol, c, out, l) fam_candidates(s, K_GridWavelet, l)
+#define GridLocalPolynomial_getCandidateConstructionPoints(s, tol, c, out, l, sc) fam_candidates(s, K_GridLocalPolynomial, l)
+void TSG_formTransformedPoints(const TSG *s, gvec x){ base_ok(s); }
 TypeOneDRule GridGlobal_getRule(const TSG *s){ base_ok(s); __CPROVER_assert(s->base == K_GridGlobal, "C14 the family cast matches the type of the grid"); return s->rule; }
 void base_clearRefinement(TSG *s){ base_ok(s); g_family_calls++; s->needed = 0; }
 void base_mergeRefinement(TSG *s){ base_ok(s); g_family_calls++; s->loaded += s->needed; s->needed = 0; s->values_id = nondet_int(); s->points_id = nondet_int(); }
@@ -126,6 +134,7 @@ static void tsg_symbolic(TSG *s){
   s->llimits.id = nondet_int(); s->llimits.size = nondet_size_t();
   __CPROVER_assume(s->llimits.size == 0 || (s->base != K_none && s->llimits.size == (size_t) s->dims));
   s->using_dynamic_construction = nondet_bool();
+  __CPROVER_assume(!s->using_dynamic_construction || s->base != K_none);   /* representation invariant: beginConstruction() rejects an empty grid, clear() resets the flag (both under contract here) */
   s->points_id = nondet_int(); s->values_id = nondet_int();
   s->domain_transform_a.id = nondet_int(); s->domain_transform_a.size = nondet_size_t(); s->domain_transform_b.id = nondet_int(); s->domain_transform_b.size = s->domain_transform_a.size;
   __CPROVER_assume(s->domain_transform_a.size == 0 || (s->base != K_none && s->domain_transform_a.size == (size_t) s->dims));
@@ -235,6 +244,15 @@ static void g3_post_ptr(const TSG *old, const TSG *s, gptr arg, int dims){
       && scale_correction.size == (size_t) old.loaded * (size_t)(output == -1 ? old.outs : 1))
     __CPROVER_assert(tsg_exc == TSG_NO_EXC, "F6 a scale correction of the documented size getNumLoaded() x active outputs is accepted");
 #endif
+//@ post getCandidateConstructionPoints_aniso
+  G3(g3_post_vec(&old, &s, level_limits);)
+  __CPROVER_assert(old.using_dynamic_construction || tsg_exc == TSG_RUNTIME_ERROR, "C14 candidate points before beginConstruction() raise runtime_error");
+//@ post getCandidateConstructionPoints_output
+  G3(g3_post_vec(&old, &s, level_limits);)
+  __CPROVER_assert(old.using_dynamic_construction || tsg_exc == TSG_RUNTIME_ERROR, "C14 candidate points before beginConstruction() raise runtime_error");
+//@ post getCandidateConstructionPoints_surplus
+  G3(g3_post_vec(&old, &s, level_limits);)
+  __CPROVER_assert(old.using_dynamic_construction || tsg_exc == TSG_RUNTIME_ERROR, "C14 candidate points before beginConstruction() raise runtime_error");
 //@ post clearRefinement
   G2(g2_post(&old, &s);)
   G2(__CPROVER_assert(tsg_exc == TSG_NO_EXC && gvec_eq(s.llimits, old.llimits), "G2 clearRefinement only drops the needed points");)
@@ -256,6 +274,10 @@ static void g3_post_ptr(const TSG *old, const TSG *s, gptr arg, int dims){
 //@ post clearDomainTransform
   __CPROVER_assert(tsg_exc == TSG_NO_EXC && s.domain_transform_a.size == 0 && s.domain_transform_b.size == 0, "C14 clearDomainTransform removes the transform");
 //@ post beginConstruction
+  /* G1/G2: a pending refinement does not survive into a construction: the points reported as needed afterwards would overlap the constructed ones and
+   * loadNeededValues() would attach values to the wrong coordinates */
+  G2(if (tsg_exc == TSG_NO_EXC && !old.using_dynamic_construction && old.loaded > 0) __CPROVER_assert(s.needed == 0, "G2 beginConstruction on a grid with loaded values drops the pending refinement (no needed points are left)");)
+  G2(__CPROVER_assert(s.points_id == old.points_id && s.values_id == old.values_id && s.loaded == old.loaded, "G2 beginConstruction leaves loaded points and values untouched");)
   __CPROVER_assert(old.base != K_none || tsg_exc == TSG_RUNTIME_ERROR, "C14 beginConstruction on an empty grid raises runtime_error");
 
 //@ harness h_copyGrid
